@@ -39,6 +39,7 @@ def eval_case(case):
     fd, path = tempfile.mkstemp(suffix=".json", dir=C.WORK)
     os.close(fd)
     summary = {}
+    cfg_out = {}
     try:
         sb.project.write_simple_json(path)
         st = BaseSubProjectTask(file_path=path, name="sub")
@@ -46,7 +47,11 @@ def eval_case(case):
         with warnings.catch_warnings(record=True) as wl:
             warnings.simplefilter("always")
             st.set_all_attributes_from_json(remove_absence_time_list=bool(case["remove_abs"]))
+        wl = [w for w in wl if "not simulated" in str(w.message)]      # the refusal warning (not e.g. ResourceWarning)
+        cfg_out = {"status": status, "time": d_full, "abs": list(op.get("abs", [])), "remove": bool(case["remove_abs"]),
+                   "su": su, "pu": pu, "warned": bool(wl)}
         if status != 1:
+            cfg_out.update(work=C.q_str(C.frac(st.default_work_amount)), rate=C.q_str(C.frac(st.work_amount_progress_of_unit_step_time)))
             if not wl:
                 out.append(O.V("configuring from an unsuccessful project issues no warning", "C20/refuse-warning", status))
             after = dict(vars(st))
@@ -54,13 +59,16 @@ def eval_case(case):
             if changed or set(after) != set(before):
                 out.append(O.V("configuring from an unsuccessful project changes the task", "C20/refuse-changed", changed))
             return {"violations": out, "sig": ("refused", d_full), "hist": {"cases": 1, "refused": 1}, "nontrivial": True,
-                    "summary": {"refused": True}}
+                    "summary": {"refused": True, "cfg": cfg_out}}
         d = d_full - (n_abs if case["remove_abs"] else 0)
         if st.default_work_amount != d:
             out.append(O.V("work amount is not the sub-project's duration", "C20/duration", (st.default_work_amount, d, d_full, n_abs)))
         punit = datetime.timedelta(seconds=pu)
         st.set_work_amount_progress_of_unit_step_time(punit)
         r = Fraction(pu, su)
+        if C.on_grid(r, 20):
+            cfg_out.update(work=C.q_str(C.frac(st.default_work_amount)), rate=C.q_str(C.frac(st.work_amount_progress_of_unit_step_time)))
+            summary["cfg"] = cfg_out
         if C.on_grid(r, 20) and C.frac(st.work_amount_progress_of_unit_step_time) != r:
             out.append(O.V("unit rate is not parent unit / sub-project unit", "C20/rate", (st.work_amount_progress_of_unit_step_time, str(r))))
         # parent project: pre-tasks -> sub -> post
@@ -97,7 +105,7 @@ def eval_case(case):
         log = [int(s) for s in st.state_record_list]
         work_steps = [k for k, s in enumerate(log) if s == 2]
         N = math.ceil(Fraction(d) * su / pu)
-        summary = {"d": d, "su": su, "pu": pu, "N": N, "log": log[:40]}
+        summary.update({"d": d, "su": su, "pu": pu, "N": N, "log": log[:40]})
         if int(parent.status) != 1:
             out.append(O.V("parent project did not finish", "C20/parent-failed", summary))
         else:
@@ -141,16 +149,42 @@ def gen_cases(rng, n):
     return cases
 
 
+def model_config_mismatches(ctx, results):
+    ents = []
+    for r in results:
+        cf = (r.get("summary") or {}).get("cfg")
+        if cf and "work" in cf:
+            ents.append((r["idx"], "(%s, %d%%nat, %s, %s, %s, %s, %s, %s, %s)" % (
+                C.coq_z(cf["status"]), cf["time"], C.coq_list(["%d%%nat" % a for a in cf["abs"]]), "true" if cf["remove"] else "false",
+                C.coq_q(Fraction(cf["su"])), C.coq_q(Fraction(cf["pu"])), C.coq_q(Fraction(cf["work"])), C.coq_q(Fraction(cf["rate"])),
+                "true" if cf["warned"] else "false")))
+    if not ents:
+        return [], 0
+    path = os.path.join(ctx["work"], "subcfg.v")
+    with open(path, "w") as f:
+        f.write("From Coq Require Import List ZArith QArith.\nFrom PV Require Import Model.Types Model.Corr Model.Subproject.\n"
+                "Import ListNotations.\nOpen Scope Q_scope.\n"
+                "Eval vm_compute in (mismatches chk_config %s).\n" % C.coq_list([e[1] for e in ents]))
+    lists, _ = C.coq_eval_nat_lists(path, cwd=ctx["work"])
+    return [ents[j][0] for j in lists[0]], len(ents)
+
+
 def run(ctx):
     rng = random.Random(ctx["seed"])
     n = 10000 if ctx["tier"] == "thorough" else 300
     cases = simcheck.load_corpus("C20") + gen_cases(rng, n)
     results = simcheck.run_cases(ctx, "harness.props.c20", cases)
-    return simcheck.summarise(ctx, cases, results,
+    bad, nchk = model_config_mismatches(ctx, results[:3000])
+    for i in bad:
+        r = next(x for x in results if x["idx"] == i)
+        r.setdefault("disagreements", []).append("Model/Subproject.v configure/set_rate disagrees with the implementation: %s" % r["summary"].get("cfg"))
+    res = simcheck.summarise(ctx, cases, results,
                               "random sub-projects (1-4 tasks, with and without project-wide absence incl. steps beyond the end, "
                               "successful and failed), saved to JSON; sub-project task configured from it with both settings of "
                               "remove_absence_time_list, unit pairs from {15..480}s (dyadic ratios) and non-dyadic ones, placed "
                               "after 0-2 predecessors (FS/SS) at any list position of a parent with its own absence steps")
+    res["extra"]["configurations_checked_against_model"] = nchk
+    return res
 
 
 K = Kit("C20", None)
